@@ -12,6 +12,10 @@ def cut(s, n):
     return s if len(s) <= n else s[:n - 3] + '...'
 
 
+import io, sys
+_out = io.StringIO()
+_real = sys.stdout
+sys.stdout = _out
 print('| id | prop | change | needs | quick check of that property |')
 print('|----|------|--------|-------|------------------------------|')
 tot = rep = inp = und = 0
@@ -40,3 +44,16 @@ for d in sorted(glob.glob(os.path.join(V, 'seeded', '*'))):
     print('| %s | %s | %s | %s | %s |' % (i, m['property'], cut(m['summary'], 150), cut(m.get('needs', ''), 110), out))
 print()
 print('%d changes: %d reported (%d with a concrete failing input replayed on the real code), %d undecided, %d missed.' % (tot, rep, inp, und, tot - rep - und))
+
+sys.stdout = _real
+text = _out.getvalue()
+if '--update-design' in sys.argv:
+    dp = os.path.join(V, 'DESIGN.md')
+    d = open(dp).read()
+    a, b = '<!-- SEEDED-TABLE-BEGIN -->', '<!-- SEEDED-TABLE-END -->'
+    i, j = d.index(a) + len(a), d.index(b)
+    d = d[:i] + '\n' + text + d[j:]
+    open(dp, 'w').write(d)
+    print('DESIGN.md table updated:', text.strip().split('\n')[-1])
+else:
+    print(text, end='')
